@@ -45,8 +45,9 @@ def cmd_import(src, name):
 
 def demo_cmd(d, meta, include):
     cmd = meta.get("demo_compile", "g++ -std=c++20 -I%s demo.cpp -o demo" % include)
-    cmd = re.sub(r"-I\s*/tmp/mut/C\d+/include", "-I" + include, cmd)
-    cmd = re.sub(r"-I\s*/tmp/mut/C\d+/_mutant", "-I" + d, cmd)
+    cmd = re.sub(r"-I\s*/tmp/mut\d*/C\d+/include", "-I" + include, cmd)
+    cmd = re.sub(r"-I\s*/tmp/mut\d*/C\d+/_mutant(/[AB])?", "-I" + d, cmd)
+    cmd = re.sub(r"/tmp/mut\d*/C\d+/_mutant(/[AB])?/", d + "/", cmd)
     cmd = re.sub(r"(?<![\w/.-])demo\.cpp", os.path.join(d, "demo.cpp"), cmd)
     cmd = re.sub(r"-o\s+\S+", "-o /tmp/seeded-demo", cmd)
     cmd = re.sub(r"^cd \S+ && ", "", cmd)
